@@ -635,3 +635,83 @@ func ruleObjDecode(c *chk.Ctx) {
 		c.Undecided("PAIR.obj", f, "target decode", f.Pos(), "no per-key decode found")
 	}
 }
+
+// ruleOmitTagWholeTag: a struct field is omitted from the positional names
+// exactly when its whole json tag is "-" (encoding/json's rule: the tag "-,"
+// names a field literally called "-").
+func ruleOmitTagWholeTag(c *chk.Ctx) {
+	f := c.M.HandlerPkg.Func("structFieldNames")
+	if f == nil {
+		c.Undecided("TABLE.tag", nil, "structFieldNames", 0, "not found")
+		return
+	}
+	var lookup *ssa.Call
+	ir.Instrs(f, func(ins ssa.Instruction) {
+		if call, ok := ins.(*ssa.Call); ok && ir.IsCallTo(&call.Call, "(reflect.StructTag).Lookup") {
+			lookup = call
+		}
+	})
+	n := 0
+	ir.Instrs(f, func(ins ssa.Instruction) {
+		bo, ok := ins.(*ssa.BinOp)
+		if !ok || bo.Op != token.EQL {
+			return
+		}
+		if s, isS := constString(bo.Y); !isS || s != "-" {
+			return
+		}
+		n++
+		c.Check(lookup != nil && ir.IsExtractOf(bo.X, lookup, 0), "TABLE.tag", f, "omission compares the whole tag", bo.Pos(), "the field is skipped exactly when the whole json tag equals \"-\" (as encoding/json does)", "the omission test compares something other than the whole json tag with \"-\": a field tagged \"-,\" (JSON key \"-\") would be dropped from the positional names, so array and object forms disagree")
+	})
+	if n == 0 {
+		c.Undecided("TABLE.tag", f, "omission test", f.Pos(), "no comparison with \"-\" found")
+	}
+}
+
+// ruleDecodeTargets: the input decoders allocate a pointer to the parameter's
+// element type for pointer parameters (passing the pointer) and a pointer to
+// the parameter type otherwise (passing its element).
+func ruleDecodeTargets(c *chk.Ctx) {
+	wrap := handlerFunc(c, "(*FuncInfo).Wrap")
+	if wrap == nil {
+		return
+	}
+	ptrForm, valForm := false, false
+	for _, g := range closuresOf(c, wrap) {
+		var nw *ssa.Call
+		ir.Instrs(g, func(ins ssa.Instruction) {
+			if call, ok := ins.(*ssa.Call); ok && ir.IsCallTo(&call.Call, "reflect.New") {
+				nw = call
+			}
+		})
+		if nw == nil {
+			continue
+		}
+		elemArg := false
+		if call, ok := nw.Call.Args[0].(*ssa.Call); ok && call.Call.IsInvoke() && call.Call.Method.Name() == "Elem" {
+			elemArg = true
+		}
+		passesElem, passesPtr := false, false
+		for _, r := range ir.Returns(g) {
+			if ir.IsNilConst(ir.ReturnResult(r, 0)) {
+				continue
+			}
+			vals, _ := c.P.ElementValues(ir.ReturnResult(r, 0))
+			for _, v := range vals {
+				if v == ssa.Value(nw) {
+					passesPtr = true
+				}
+				if call, ok := v.(*ssa.Call); ok && ir.IsCallTo(&call.Call, "(reflect.Value).Elem") && call.Call.Args[0] == ssa.Value(nw) {
+					passesElem = true
+				}
+			}
+		}
+		if elemArg && passesPtr && !passesElem {
+			ptrForm = true
+		}
+		if !elemArg && passesElem && !passesPtr {
+			valForm = true
+		}
+	}
+	c.Check(ptrForm && valForm, "PAIR.wrap", wrap, "decode target matches the parameter's indirection", wrap.Pos(), "pointer parameters decode into New(arg.Elem()) and receive that pointer; value parameters decode into New(arg) and receive its element", "the input decoders do not distinguish pointer from value parameters (New(arg.Elem()) → pointer, New(arg) → element): a pointer parameter would be decoded through a **T (nil on absent params, DisallowUnknownFields method hidden)")
+}
